@@ -121,7 +121,7 @@ const SetSpec kSets[] = {
 };
 const int kNSets = sizeof(kSets) / sizeof(kSets[0]);
 
-template <class PT> void structured(vf::Ctx& c, const char* tname, int si) {
+template <class PT> void structured(vf::Ctx& c, const char* tname, int si, int off) {
   constexpr int DIM = PointTraits<PT>::DIM;
   const SetSpec& s = kSets[si];
   if (DIM == 2 && (s.c > 1 && s.kind == 0)) { c.trivial(); return; }
@@ -141,9 +141,16 @@ template <class PT> void structured(vf::Ctx& c, const char* tname, int si) {
   else if (s.kind == 2) { for (int i = 0; i < s.a; ++i) { pts.push_back(mk<PT>({1e-3 * ((i * 7) % 50) / 50.0, 1e-3 * ((i * 11) % 50) / 50.0, 1e-3 * ((i * 3) % 50) / 50.0})); pts.push_back(mk<PT>({100 + 1e-3 * ((i * 13) % 50) / 50.0, 1e-3 * ((i * 17) % 50) / 50.0, 0})); } queries = {mk<PT>({0, 0, 0}), mk<PT>({50, 0, 0}), mk<PT>({49.99999, 0.1, 0}), mk<PT>({100, 0, 0}), mk<PT>({5e-4, 5e-4, 5e-4}), mk<PT>({1e6, 0, 0}), mk<PT>({-1e6, 3, 0}), mk<PT>({50, 1e6, 0})}; }
   else if (s.kind == 3) { for (int i = 0; i < 20; ++i) pts.push_back(mk<PT>({(double)(i % 2), (double)i, 0})); for (double y : {-3.0, 0.0, 4.5, 9.75, 19.0, 25.0}) for (double x : {-5.0, 0.0, 0.5, 1.0, 11.0, 1000.0}) queries.push_back(mk<PT>({x, y, 0})); }
   else add_lattice(s.a, s.b, 1, 1, 2.0);
+  if (off) {   // the same set far from the origin (map coordinates): UTM-like for double, kilometre-scale for float; all values stay exactly representable
+    const bool dbl = std::is_same<typename PT::Scalar, double>::value;
+    const double O[3] = {dbl ? 706000.0 : 1000.0, dbl ? 5073000.0 : -2000.0, dbl ? 300.0 : 50.0};
+    for (auto& p : pts) for (int d = 0; d < DIM; ++d) p[d] = (typename PT::Scalar)((double)p[d] + O[d]);
+    for (auto& q : queries) for (int d = 0; d < DIM; ++d) q[d] = (typename PT::Scalar)((double)q[d] + O[d]);
+  }
   KdTree<PT> tree(pts);
   size_t kmax = std::min<size_t>(pts.size(), 50);
-  for (auto& q : queries) { if (!check_query<PT>(c, tree, pts, q, kmax, s.name, tname)) break; }
+  std::string what = std::string(s.name) + (off ? " (translated far from the origin)" : "");
+  for (auto& q : queries) { if (!check_query<PT>(c, tree, pts, q, kmax, what, tname)) break; }
   if (c.want_sample()) c.sample(vf::JO().str("type", tname).str("explorer", "structured").str("set", s.name).u("points", pts.size()).u("queries", queries.size()).done());
 }
 
@@ -152,7 +159,7 @@ const int kSmallBlocks = 24;
 
 }  // namespace
 
-uint64_t vf_ncases(const std::string& tier) { return 8 * kSmallBlocks + 8 * kNSets; }
+uint64_t vf_ncases(const std::string& tier) { return 8 * kSmallBlocks + 16 * kNSets; }
 
 void vf_run(uint64_t idx, const std::string& tier, vf::Ctx& c) {
   if (idx < 8 * kSmallBlocks) {
@@ -164,19 +171,19 @@ void vf_run(uint64_t idx, const std::string& tier, vf::Ctx& c) {
       case 6: small_scope<HomogeneousCoordinates3d>(c, kTypes[6], b, kSmallBlocks, tier == "thorough"); break; default: small_scope<HomogeneousCoordinates3f>(c, kTypes[7], b, kSmallBlocks, tier == "thorough");
     }
   } else {
-    int k = (int)idx - 8 * kSmallBlocks; int t = k / kNSets, si = k % kNSets;
+    int k = (int)idx - 8 * kSmallBlocks; int off = k / (8 * kNSets); k %= 8 * kNSets; int t = k / kNSets, si = k % kNSets;
     switch (t) {
-      case 0: structured<Eigen::Vector2d>(c, kTypes[0], si); break; case 1: structured<Eigen::Vector2f>(c, kTypes[1], si); break;
-      case 2: structured<HomogeneousCoordinates2d>(c, kTypes[2], si); break; case 3: structured<HomogeneousCoordinates2f>(c, kTypes[3], si); break;
-      case 4: structured<Eigen::Vector3d>(c, kTypes[4], si); break; case 5: structured<Eigen::Vector3f>(c, kTypes[5], si); break;
-      case 6: structured<HomogeneousCoordinates3d>(c, kTypes[6], si); break; default: structured<HomogeneousCoordinates3f>(c, kTypes[7], si);
+      case 0: structured<Eigen::Vector2d>(c, kTypes[0], si, off); break; case 1: structured<Eigen::Vector2f>(c, kTypes[1], si, off); break;
+      case 2: structured<HomogeneousCoordinates2d>(c, kTypes[2], si, off); break; case 3: structured<HomogeneousCoordinates2f>(c, kTypes[3], si, off); break;
+      case 4: structured<Eigen::Vector3d>(c, kTypes[4], si, off); break; case 5: structured<Eigen::Vector3f>(c, kTypes[5], si, off); break;
+      case 6: structured<HomogeneousCoordinates3d>(c, kTypes[6], si, off); break; default: structured<HomogeneousCoordinates3f>(c, kTypes[7], si, off);
     }
   }
 }
 
 std::string vf_case_params(uint64_t idx, const std::string& tier) {
   if (idx < 8 * kSmallBlocks) return vf::JO().u("case", idx).str("explorer", "small scope").str("type", kTypes[idx / kSmallBlocks]).done();
-  int k = (int)idx - 8 * kSmallBlocks; return vf::JO().u("case", idx).str("explorer", "structured").str("type", kTypes[k / kNSets]).str("set", kSets[k % kNSets].name).done();
+  int k = (int)idx - 8 * kSmallBlocks; int off = k / (8 * kNSets); k %= 8 * kNSets; return vf::JO().u("case", idx).str("explorer", "structured").str("type", kTypes[k / kNSets]).str("set", kSets[k % kNSets].name).b("translated", off).done();
 }
 
 std::string vf_describe(const std::string& tier) {
@@ -185,6 +192,7 @@ std::string vf_describe(const std::string& tier) {
   o.str("small_scope", "every multiset of 1..5 points of the 3x3 lattice (2D types, 2001 sets) / 2x2x2 lattice (3D types, 1286 sets), stored in both orders, index at leaf sizes 10, 1, 2; queries on {-0.5,0,0.5,1,1.5,2.5}^2 (3D: {-0.5..1.5}^2 x {-0.5,0.5,1}) plus 1e6 away; every k<=n");
   std::vector<std::string> names; for (auto& s : kSets) names.push_back(s.name);
   o.strs("structured_sets", names);
+  o.str("structured_sets_translated", "every structured set a second time translated by (706000, 5073000, 300) for double types and (1000, -2000, 50) for float types (all coordinates remain exactly representable)");
   o.str("structured_queries", "lattice points (strided), half steps, +-1e6 along one / all axes, 2 units outside each side of the bounding box; every k in 1..min(n,50); leaf size 10");
   o.str("oracle", "brute force in the same scalar type: reported distances equal the k smallest (ascending, 4 eps relative), each matches its indexed point, indexes in range and distinct; after the ascending pass over k the same queries in descending order and the single query again, bit-equal to the first answers");
   return o.done();
